@@ -761,9 +761,11 @@ fn run_cases(seed: u64, thorough: bool) -> Vec<RunCase> {
     add(30000, 16, 4, vec![], vec![AI::Jmp { kind: 0, target: 0, cond: 0 }], true, "max-run-backjump");
     {
         let mut f = vec![AI::Fdef(0)];
-        f.extend(nops(2500));
+        f.extend(nops(3));
         f.push(AI::Endf);
-        add(100, 16, 4, f, vec![AI::Nop, AI::LoopCall(2000, 0)], true, "max-run-loopcall");
+        let mut p = vec![AI::Nop];
+        p.extend((0..10).map(|_| AI::LoopCall(32767, 0)));
+        add(30000, 16, 4, f, p, true, "max-run-loopcall");
     }
     if thorough {
         let mut p = nops(3);
@@ -1746,7 +1748,7 @@ fn build_world(seed: u64, thorough: bool) -> World {
             tasks.push(Task::Run(i));
         }
     }
-    let nm = if thorough { 260 } else { 36 };
+    let nm = if thorough { 18000 } else { 1800 };
     let nsyn = synthetic_fonts().len();
     // interleave: mutation index major, font minor (balances slow fonts across workers)
     for m in 0..nm {
@@ -1767,7 +1769,7 @@ fn build_world(seed: u64, thorough: bool) -> World {
             }
         }
     }
-    let nim = if thorough { 1500 } else { 250 };
+    let nim = if thorough { 60000 } else { 8000 };
     for m in 0..nim {
         for fix in 0..ift.len() {
             tasks.push(Task::Ift { fix, m });
